@@ -680,10 +680,10 @@ def run(ctx):
     for impl in ("exp", "leg"):
         for tk in TARGET_KINDS:
             for md in mds:
-                if tk == "quartic" and md > (2 if ctx.thorough else 1):
-                    continue       # exact rationals of a cubic map grow as 3^leaves: deeper trees are covered by the two-piece normal
+                if tk == "quartic" and md > 1:
+                    continue       # exact rationals of a cubic map grow as 3^leaves (7 leaves: minutes of gcd): deeper trees are covered by the two-piece normal
                 for epsc in EPS_CLASSES:
-                    for _ in range(reps if tk != "quartic" or md < 2 else 1):
+                    for _ in range(reps):
                         gen_chain(ctx, rng, cuqi, state, impl, tk, md, epsc, 0, cases, inners)
     # after warm-up (adapted, non-dyadic step size and start)
     # (an adapted step size is a 53-bit number: exact rationals then grow by ~160 bits per leaf, so trees stay shallow here)
